@@ -88,12 +88,35 @@ fn check_chunks(case: &ChunkCase, ctx: &mut Ctx) {
     } else {
         fix::chunk(4242 + case.len as u64, 64)
     };
-    let paid = |c: &Chunk| ant_protocol::storage::try_serialize_record(&(ant_evm::ProofOfPayment { peer_quotes: vec![] }, c.clone()), ant_protocol::storage::RecordKind::ChunkWithPayment).map(|b| b.to_vec()).unwrap_or_default();
     let target = if case.public_data { *dm.name() } else { *chunks[0].name() };
+    let (res, delivered_bad) = perform_read(&map, &decoy, target, case.public_data, &case.corrupt, &case.order);
+    ctx.label(if case.public_data { "data_get_public" } else { "chunk_get" });
+    ctx.label_if(delivered_bad > 0, "inauthentic_reply_delivered");
+    for (_, c) in &case.corrupt {
+        ctx.label(format!("plan_{c:?}"));
+    }
+    ctx.nontrivial_if(delivered_bad > 0);
+    ctx.canon = Some(format!("{}/{}/{:?}/{:?}", case.public_data, case.len, case.corrupt, case.order));
+    ctx.sample = Some(serde_json::json!({"case": case, "ok": res.is_ok(), "bad_replies_delivered": delivered_bad}));
+    if let Ok(bytes) = res {
+        if case.public_data {
+            if bytes != data.to_vec() {
+                ctx.fail("data_get_public_returns_substituted_content", format!("requested data map {}, got {} bytes that are not the data it describes", hex::encode(&target.0[..6]), bytes.len()));
+            }
+        } else if fix::sha3(&bytes) != target.0 {
+            ctx.fail("chunk_get_returns_content_not_hashing_to_address", format!("requested {}, returned content hashes to {}", hex::encode(&target.0[..6]), hex::encode(&fix::sha3(&bytes)[..6])));
+        }
+    }
+}
+
+/// One client read (chunk_get / data_get_public of `target`) against holders that answer from `map`,
+/// except for the network reads named in `corrupt`. Returns the client's result and the number of
+/// inauthentic replies that were actually delivered.
+fn perform_read(map: &HashMap<Vec<u8>, Chunk>, decoy: &Chunk, target: xor_name::XorName, public: bool, corrupt: &[(u8, Corruption)], order: &[u16]) -> (Result<Vec<u8>, String>, usize) {
+    let paid = |c: &Chunk| ant_protocol::storage::try_serialize_record(&(ant_evm::ProofOfPayment { peer_quotes: vec![] }, c.clone()), ant_protocol::storage::RecordKind::ChunkWithPayment).map(|b| b.to_vec()).unwrap_or_default();
     let mut delivered_bad = 0usize;
     let res: Result<Vec<u8>, String> = with_sim(|sim| {
         let client = sim.client.clone();
-        let public = case.public_data;
         let op = sim.spawn(async move {
             if public {
                 client.data_get_public(target).await.map(|b| b.to_vec()).map_err(|e| format!("{e:?}"))
@@ -105,10 +128,10 @@ fn check_chunks(case: &ChunkCase, ctx: &mut Ctx) {
         let mut oi = 0usize;
         let ok = sim.drive(&op, |sim| {
             let n = sim.outstanding.len();
-            let i = pick_idx(case.order.get(oi).copied().unwrap_or(0), n);
+            let i = pick_idx(order.get(oi).copied().unwrap_or(0), n);
             oi += 1;
             let (id, key) = (sim.outstanding[i].id, sim.outstanding[i].key.clone());
-            let bad = case.corrupt.iter().find(|(r, _)| *r as usize == read_no).map(|(_, c)| *c);
+            let bad = corrupt.iter().find(|(r, _)| *r as usize == read_no).map(|(_, c)| *c);
             read_no += 1;
             let honest = map.get(&key.to_vec()).map(chunk_record);
             let rec = match (bad, honest) {
@@ -117,7 +140,7 @@ fn check_chunks(case: &ChunkCase, ctx: &mut Ctx) {
                 (Some(c), h) => {
                     delivered_bad += 1;
                     Some(match c {
-                        Corruption::OtherChunk => fix::record(key.clone(), chunk_record(&decoy).value),
+                        Corruption::OtherChunk => fix::record(key.clone(), chunk_record(decoy).value),
                         Corruption::WrongKind => fix::record(key.clone(), fix::scratchpad_record(&fix::scratchpad(5, 1, vec![1, 2, 3], 1, fix::Sig::Valid)).value),
                         Corruption::Garbage => fix::record(key.clone(), fix::pseudo_bytes(read_no as u64, 40)),
                         Corruption::Truncated => {
@@ -126,13 +149,13 @@ fn check_chunks(case: &ChunkCase, ctx: &mut Ctx) {
                             fix::record(key.clone(), v)
                         }
                         Corruption::OtherKey => fix::record(key_of(decoy.name()), h.map(|r| r.value).unwrap_or_default()),
-                        Corruption::OtherChunkPaidKind => fix::record(key.clone(), paid(&decoy)),
+                        Corruption::OtherChunkPaidKind => fix::record(key.clone(), paid(decoy)),
                         Corruption::RightChunkPaidKind => match map.get(&key.to_vec()) {
                             Some(c) => fix::record(key.clone(), paid(c)),
-                            None => fix::record(key.clone(), paid(&decoy)),
+                            None => fix::record(key.clone(), paid(decoy)),
                         },
                         Corruption::OtherChunkUnderTag(t) => {
-                            let mut v = if t % 8 == 1 { paid(&decoy) } else { chunk_record(&decoy).value };
+                            let mut v = if t % 8 == 1 { paid(decoy) } else { chunk_record(decoy).value };
                             if v.len() > 1 {
                                 v[1] = t % 8;
                             }
@@ -157,23 +180,96 @@ fn check_chunks(case: &ChunkCase, ctx: &mut Ctx) {
         }
         op.take().unwrap()
     });
-    ctx.label(if case.public_data { "data_get_public" } else { "chunk_get" });
-    ctx.label_if(delivered_bad > 0, "inauthentic_reply_delivered");
-    for (_, c) in &case.corrupt {
-        ctx.label(format!("plan_{c:?}"));
+    (res, delivered_bad)
+}
+
+// ------------------------------------------------------------------------------------------------
+// section reread: ONE client reads several addresses one after the other (the same address again
+// after a rejected or a successful read, another address in between), every read against its own set
+// of substituted replies. Whatever an earlier read left behind in the client — a rejected reply, a
+// fetched data map, a completed query — must not make a later read return unauthentic content.
+// ------------------------------------------------------------------------------------------------
+
+#[derive(Clone, Debug, Serialize, Deserialize)]
+pub struct RereadStep {
+    /// which of the two blobs
+    pub blob: u8,
+    pub public_data: bool,
+    pub corrupt: Vec<(u8, Corruption)>,
+    pub order: Vec<u16>,
+}
+
+#[derive(Clone, Debug, Serialize, Deserialize)]
+pub struct RereadCase {
+    pub len: u16,
+    pub seed: u16,
+    pub steps: Vec<RereadStep>,
+}
+
+fn reread_strategy() -> BoxedStrategy<RereadCase> {
+    let step = (prop_oneof![3 => Just(0u8), 1 => Just(1u8)], prop_oneof![3 => Just(true), 1 => Just(false)], prop_oneof![2 => Just(vec![]), 3 => proptest::collection::vec((0u8..4, corruption()), 1..3)], proptest::collection::vec(any::<u16>(), 0..6))
+        .prop_map(|(blob, public_data, corrupt, order)| RereadStep { blob, public_data, corrupt, order });
+    (3u16..5000, any::<u16>(), proptest::collection::vec(step, 2..vh_core::depth(5, 9))).prop_map(|(len, seed, steps)| RereadCase { len, seed, steps }).boxed()
+}
+
+fn check_reread(case: &RereadCase, ctx: &mut Ctx) {
+    // a fresh client per case: the case is about what the client carries from one read to the next
+    crate::c14::reset_sim();
+    // two blobs; each is the other's decoy, so a substituted data map is complete and fully served
+    let datas: Vec<Bytes> = (0..2u16).map(|b| Bytes::from(content_of(&Content::Mixed(case.seed ^ (b * 0x3c3c)), case.len as usize + b as usize * 11))).collect();
+    let mut enc = vec![];
+    let mut map: HashMap<Vec<u8>, Chunk> = HashMap::new();
+    for d in &datas {
+        let Ok((dm, chunks)) = autonomi::self_encryption::encrypt(d.clone()) else {
+            ctx.fail("encryptable_input_rejected", format!("{} bytes", d.len()));
+            return;
+        };
+        for c in chunks.iter().chain(std::iter::once(&dm)) {
+            map.insert(key_of(c.name()).to_vec(), c.clone());
+        }
+        enc.push((dm, chunks));
     }
-    ctx.nontrivial_if(delivered_bad > 0);
-    ctx.canon = Some(format!("{}/{}/{:?}/{:?}", case.public_data, case.len, case.corrupt, case.order));
-    ctx.sample = Some(serde_json::json!({"case": case, "ok": res.is_ok(), "bad_replies_delivered": delivered_bad}));
-    if let Ok(bytes) = res {
-        if case.public_data {
-            if bytes != data.to_vec() {
-                ctx.fail("data_get_public_returns_substituted_content", format!("requested data map {}, got {} bytes that are not the data it describes", hex::encode(&target.0[..6]), bytes.len()));
+    let (mut bad_total, mut rereads_after_bad, mut rereads) = (0usize, 0usize, 0usize);
+    let mut seen: Vec<(u8, bool, bool)> = vec![];
+    for (i, st) in case.steps.iter().enumerate() {
+        let b = st.blob as usize % 2;
+        let (dm, chunks) = &enc[b];
+        let (odm, ochunks) = &enc[1 - b];
+        let target = if st.public_data { *dm.name() } else { *chunks[0].name() };
+        let decoy = if st.public_data { odm.clone() } else { ochunks[0].clone() };
+        let (res, bad) = perform_read(&map, &decoy, target, st.public_data, &st.corrupt, &st.order);
+        if let Some((_, _, had_bad)) = seen.iter().find(|(sb, sp, _)| *sb == st.blob % 2 && *sp == st.public_data) {
+            rereads += 1;
+            if *had_bad {
+                rereads_after_bad += 1;
             }
-        } else if fix::sha3(&bytes) != target.0 {
-            ctx.fail("chunk_get_returns_content_not_hashing_to_address", format!("requested {}, returned content hashes to {}", hex::encode(&target.0[..6]), hex::encode(&fix::sha3(&bytes)[..6])));
+        }
+        seen.push((st.blob % 2, st.public_data, bad > 0));
+        bad_total += bad;
+        if let Ok(bytes) = res {
+            if st.public_data {
+                if bytes != datas[b].to_vec() {
+                    ctx.fail(
+                        "data_get_public_returns_substituted_content",
+                        format!("read {i} of {}: requested data map {}, got {} bytes that are not the data it describes ({} inauthentic replies in this read, {} in earlier reads)", case.steps.len(), hex::encode(&target.0[..6]), bytes.len(), bad, bad_total - bad),
+                    );
+                    return;
+                }
+            } else if fix::sha3(&bytes) != target.0 {
+                ctx.fail(
+                    "chunk_get_returns_content_not_hashing_to_address",
+                    format!("read {i} of {}: requested {}, returned content hashes to {} ({} inauthentic replies in this read, {} in earlier reads)", case.steps.len(), hex::encode(&target.0[..6]), hex::encode(&fix::sha3(&bytes)[..6]), bad, bad_total - bad),
+                );
+                return;
+            }
         }
     }
+    ctx.label_if(rereads > 0, "same_address_read_again");
+    ctx.label_if(rereads_after_bad > 0, "same_address_read_again_after_inauthentic_replies");
+    ctx.label_if(bad_total > 0, "inauthentic_reply_delivered");
+    ctx.nontrivial_if(rereads_after_bad > 0);
+    ctx.canon = Some(format!("{case:?}"));
+    ctx.sample = Some(serde_json::json!({"case": case, "bad_replies_delivered": bad_total}));
 }
 
 // ------------------------------------------------------------------------------------------------
@@ -337,6 +433,11 @@ pub fn run(cfg: RunCfg) {
             rep, "vault", (6_000, 300_000), 16,
             "non-trivial: >=2 distinct versions delivered or an inauthentic one delivered; distinct by whole case",
             vault_strategy, check_vault
+        );
+        vh_core::section!(
+            rep, "reread", (4_000, 120_000), 16,
+            "one client, 2..4 reads (chunk_get / data_get_public) over the addresses of two blobs, each read with its own substituted replies (the other blob's complete data map / chunk, wrong kinds, garbage ...): every successful read must be authentic whatever earlier reads left behind. non-trivial: an address read again after inauthentic replies were delivered for it",
+            reread_strategy, check_reread
         );
         crate::c14::run_small_chunk_child(&mut rep, &cfg, "C15");
     } else {
